@@ -1,0 +1,32 @@
+//go:build verif
+
+// Contracts for package http2utils, read by /verif/h2vc (see /verif/DESIGN.md section 3).
+// This file holds comments only and is compiled only with the `verif` build tag.
+
+package http2utils
+
+//@ func Uint24ToBytes
+//@ props C05
+//@ requires room: len(b) >= 3
+//@ modifies contents(b)
+//@ ensures bytes: b[0] == (n >> 16) % 256 && b[1] == (n >> 8) % 256 && b[2] == n % 256
+//@ ensures rest: forall(i, 3, len(b), b[i] == old(b)[i])
+
+//@ func BytesToUint24
+//@ props C05 C16
+//@ requires room: len(b) >= 3
+//@ pure
+//@ ensures value: r0 == b[0]*65536 + b[1]*256 + b[2]
+
+//@ func CutPadding
+//@ props C01 C05 C16
+//@ ensures ok: r1 == nil ==> length >= 1 && length <= len(payload) && payload[0] < length &&
+//@ |   samearray(r0, payload) && offset(r0) == offset(payload) + 1 && len(r0) == length - payload[0] - 1
+//@ ensures bad: !(len(payload) >= 1 && length >= 1 && length <= len(payload) && payload[0] < length) ==> r1 != nil
+
+// ---- trusted stubs for external functions (listed as assumptions in every evidence file) ----
+
+//@ func fmt.Errorf
+//@ trusted
+//@ pure
+//@ ensures nonnil: r0 != nil
